@@ -59,10 +59,20 @@ void ares_destroy(ares_channel_t *channel)
 
   /* Wait for reinit thread to exit if there was one pending, can't be
    * holding a lock as the thread may take locks. */
-  if (channel->reinit_thread != NULL) {
-    void *rv;
-    ares_thread_join(channel->reinit_thread, &rv);
+  {
+    ares_thread_t *reinit_thread;
+
+    /* The handle may be written by an ares_reinit() still in flight on the
+     * event thread, only read it under the lock */
+    ares_channel_lock(channel);
+    reinit_thread          = channel->reinit_thread;
     channel->reinit_thread = NULL;
+    ares_channel_unlock(channel);
+
+    if (reinit_thread != NULL) {
+      void *rv;
+      ares_thread_join(reinit_thread, &rv);
+    }
   }
 
   /* Lock because callbacks will be triggered, and any system-generated
